@@ -315,7 +315,7 @@ Qed.
 Lemma environ_total r a : accept r = Some a -> exists e, environ r a = EnvOk e.
 Proof.
   intros Ha. unfold environ.
-  destruct (split_host_total (q_host a) (r_https r)) as [h [p ->]].
+  destruct (split_host_total (q_host a) (q_https a)) as [h [p ->]].
   rewrite (path_info_bytes _ (accept_path_bytes r a Ha)).
   destruct (hm_get k_ctype (q_headers a)); destruct (hm_get k_clen _); eauto.
 Qed.
@@ -325,11 +325,11 @@ Lemma environ_fixed r a e :
   environ r a = EnvOk e ->
   e_method e = r_method r /\ e_query e = q_query a /\ e_remote e = r_remote_ip r /\
   e_protocol e = (if r_v11 r then t "HTTP/1.1" else t "HTTP/1.0") /\
-  e_scheme e = (if r_https r then t "https" else t "http") /\ e_input e = r_body r /\
+  e_scheme e = (if q_https a then t "https" else t "http") /\ e_input e = r_body r /\
   path_info (q_path a) = Some (e_path e) /\
-  exists p, split_host (q_host a) (r_https r) = inl (e_name e, p) /\ e_port e = dec_N p.
+  exists p, split_host (q_host a) (q_https a) = inl (e_name e, p) /\ e_port e = dec_N p.
 Proof.
-  unfold environ. destruct (split_host (q_host a) (r_https r)) as [[h p]|]; [|discriminate].
+  unfold environ. destruct (split_host (q_host a) (q_https a)) as [[h p]|]; [|discriminate].
   destruct (path_info (q_path a)) as [pi|]; [|discriminate].
   destruct (hm_get k_ctype (q_headers a)); destruct (hm_get k_clen _); intros H; inversion H; subst; cbn;
     repeat split; eauto.
